@@ -193,13 +193,13 @@ macro_rules! vle {
     }};
 }
 
-/// bit-identical floats
+/// same IEEE value at a position: bit-identical, or both NaN (payloads are not compared)
 #[macro_export]
 macro_rules! vbits {
     ($a:expr, $b:expr, $($what:tt)+) => {{
         let a__: f64 = $a;
         let b__: f64 = $b;
-        $crate::vassert!(a__.to_bits() == b__.to_bits(), "{}: got {:e} ({:#x}) want {:e} ({:#x})", format!($($what)+), a__, a__.to_bits(), b__, b__.to_bits());
+        $crate::vassert!(a__.to_bits() == b__.to_bits() || (a__.is_nan() && b__.is_nan()), "{}: got {:e} ({:#x}) want {:e} ({:#x})", format!($($what)+), a__, a__.to_bits(), b__, b__.to_bits());
     }};
 }
 
